@@ -73,6 +73,16 @@ func (t *T) Render(q Qual) string {
 		return t.Name + renderArgs(t.Args, q)
 	case KPkg:
 		qq := q(t.Pkg)
+		if strings.Contains(t.Name, "TIMEQ") {
+			name := strings.ReplaceAll(t.Name, "TIMEQ.", "")
+			if qq != "" {
+				name = strings.ReplaceAll(t.Name, "TIMEQ", qq)
+			}
+			if qq == "" {
+				return name
+			}
+			return qq + "." + name
+		}
 		if qq == "" {
 			return t.Name + renderArgs(t.Args, q)
 		}
